@@ -1,7 +1,7 @@
 """C03 — GDSII reader and writer agree with the format specification."""
 from checks.gdscommon import same, nontrivial, classify  # noqa
 CONFIG = {
-    "manifest": {'level_text': "Same reader/writer models as C01. Streams from an independent specification-level encoder (all element kinds and optional records, arbitrary XY splits) are loaded by read_gds and by the extracted read_gds_model; the encoder's own expectation is the property oracle. gdstk-written bytes are compared byte for byte with write_gds_model.", 'level_note': 'No strict specification decoder in Coq yet (planned: spec_decode with reader_accepts_spec for every accepted stream); the forward direction is decided per run on encoder-generated streams. One defect (WIDTH carried over between PATH elements) was repaired by a fix: commit.', 'technique': 'Coq models of GDSII reader and writer + independent spec-level encoder as oracle + differential run'},
+    "manifest": {'level_text': "Same reader/writer models and the gds_roundtrip theorem as C01, which gives 'every file the writer model emits is read back to the library that was saved' for all libraries; per-record decoding lemmas (16/32/64-bit fields, point lists of any length, strings, properties, STRANS/MAG/ANGLE) are proved for every value in range. Forward direction: streams from an independent specification-level encoder (all element kinds, BOX, path types 0/1/2/4 with extensions, negative widths, AREF with any STRANS, optional ELFLAGS / PLEX / REFLIBS / GENERATIONS / STRCLASS records, arbitrary XY splits, font bits in PRESENTATION) are loaded by read_gds and by the extracted read_gds_model; the encoder's own expectation is the property oracle.", 'level_note': "No strict specification decoder exists in Coq yet: 'every spec-legal stream loads to the layout it encodes' is decided per run on encoder-generated streams (and by the model tie), not by a theorem over all legal serialisations. One defect (WIDTH carried over between PATH elements) was repaired by a fix: commit.", 'technique': 'Coq round-trip theorem over Gallina models of the GDSII reader and writer + byte-for-byte / dump-for-dump differential run + round-trip oracle'},
     "prop_file": "Properties_C03",
     "extract_file": "Extract_Gds",
     "extracted": ["gds"],
